@@ -27,6 +27,7 @@ fn dispatch(vec: &J, out: &mut Out, wk: &mut Option<worker::Worker>) -> Result<(
         "hayson" => ops_json::run(vec).map(|e| out.emit(e)),
         "enc" => ops_enc::run(vec).map(|e| out.emit(e)),
         "time" => ops_time::run(vec, out),
+        "filter" => ops_filter::run(vec, out, wk.get_or_insert_with(worker::Worker::new)),
         "dec" | "stab" => ops_total::run(vec, out, wk.get_or_insert_with(worker::Worker::new)),
         _ => Err(format!("unknown op {op}")),
     }
@@ -78,6 +79,7 @@ fn main() {
                     }
                 }
                 "fuzz" => ops_total::rec_fuzz(&mut out, seed, n),
+                "filterfuzz" => ops_filter::rec_fuzz(&mut out, seed, n),
                 "time" => {
                     let per_zone: usize = arg(&args, "--per-zone").and_then(|s| s.parse().ok()).unwrap_or(8);
                     ops_time::rec(&mut out, seed, per_zone);
